@@ -425,12 +425,17 @@ class Rule_LT09(BaseRule):
                             fixes.append(LintFix.delete(seg))
                             all_deletes.add(seg)
 
-                    if move_after_select_clause or add_newline:
+                    # NOTE: Meta segments (indents etc.) have no raw and can't be
+                    # part of a "create" edit. They're regenerated on reparse.
+                    segments_to_move = [
+                        seg for seg in move_after_select_clause if not seg.is_meta
+                    ]
+                    if segments_to_move or add_newline:
                         fixes.append(
                             LintFix.create_after(
                                 select_clause[0],
                                 ([NewlineSegment()] if add_newline else [])
-                                + list(move_after_select_clause),
+                                + segments_to_move,
                             )
                         )
 
